@@ -1,4 +1,5 @@
 import NbioVerif.Properties.C04
+import NbioVerif.Lemmas.SrcBridgeConn
 #print axioms ConnFull.inv_run
 #print axioms ConnFull.c04_armed
 #print axioms ConnFull.c04_belief
@@ -13,3 +14,9 @@ import NbioVerif.Properties.C04
 #print axioms ConnFull.c04_et_report_flushes
 #print axioms ConnFull.c04_et_edge_counterexample_early
 #print axioms ConnFull.c04_drains
+#print axioms ConnFull.c04_tail_is_three_steps
+#print axioms ConnFull.src_pModWrite
+#print axioms ConnFull.src_pResetRead
+#print axioms ConnFull.src_pAddRead
+#print axioms ConnFull.src_pAddReadWrite
+#print axioms ConnFull.src_masks_wellformed
